@@ -70,7 +70,10 @@ def run(ctx, rep):
         rep.corr_case("machine.run", not dis, dict(case, disagreement=dis[:2]))
         squeeze = lambda t: " ".join(t.split())       # box decoration pads the path with one more space
         got = [squeeze(t) for k, t in impl.rows if k == "file"]
-        want = [squeeze(expected_file_header(cfg, f)) for f in files]
+        want = [squeeze(expected_file_header(cfg, f)) for f in files if f["kind"] != "binary_noindex"]
+        for f in files:
+            if f["kind"] == "binary_noindex" and not any(k == "raw" and t == f["lines"][-1] for k, t in impl.rows):
+                rep.violation("file-header:binary_noindex", f"the line {f['lines'][-1]!r} (two different paths) is not shown as it is", case)
         if got != want:
             j = next((j for j, (a, b) in enumerate(zip(got, want)) if a != b), min(len(got), len(want)))
             g = got[j] if j < len(got) else None
